@@ -317,6 +317,25 @@ func (b *bsRun) settle(n int) {
 // bsExecute runs the given messages of one peer against a fresh block-sync reactor (syncing: around the fresh node
 // with events flowing to the real scheduler/processor; serving: around a node with a chain).
 func bsExecute(t ev.TB, w *bsWorld, syncing bool, ws []wire) (run *bsRun, classes []string, nontrivial bool) {
+	// an allocation alarm is confirmed by executing the case again (new reactor each time; the fresh node is rebuilt
+	// whenever a pass advanced its store)
+	passes := 0
+	text := func() string { return run.text() }
+	confirmAlloc(evReporter(t), text, func(rep reporter) {
+		if passes > 0 {
+			w = getBSWorld(t)
+			acct = newAccount(true)
+		}
+		r, c, n := bsExecuteOnce(t, rep, w, syncing, ws)
+		if passes == 0 {
+			run, classes, nontrivial = r, c, n
+		}
+		passes++
+	})
+	return run, classes, nontrivial
+}
+
+func bsExecuteOnce(t ev.TB, rep reporter, w *bsWorld, syncing bool, ws []wire) (run *bsRun, classes []string, nontrivial bool) {
 	nd := w.s.Nodes[0]
 	if syncing {
 		nd = w.fresh
@@ -327,7 +346,7 @@ func bsExecute(t ev.TB, w *bsWorld, syncing bool, ws []wire) (run *bsRun, classe
 	sw := newSwitch(map[string]p2p.Reactor{"BLOCKCHAIN": r})
 	r.SetLogger(log.New())
 	r.VerifC18UseSwitchReporter()
-	run = &bsRun{t: t, rep: evReporter(t), r: r, sw: sw, classes: map[string]bool{},
+	run = &bsRun{t: t, rep: rep, r: r, sw: sw, classes: map[string]bool{},
 		probes: []lockProbe{probeRW("blockchain.reactor.mtx", &r.VerifC18Mtx().RWMutex)}}
 	if syncing {
 		run.events = make(chan bc.VerifC18Event, 1000)
